@@ -402,7 +402,7 @@ def enumerate_cases(tier):
 
     kf = findings.open_triggers().get("ws.real_handshake")
     if kf:
-        gen_common.EXCLUDED[kf] += 1
+        yield {"_excluded": kf}
         return
     yield {"kind": "real", "shim": False, "script": [["ack", 0, False], ["next", 1, False], ["complete", 2, False]], "cfg": 0}
 
